@@ -395,6 +395,22 @@ func (e *specEnv) evalQualified(pkgName, name string) (T, bool) {
 			}
 		}
 	}
+	// import aliases used in the package's files (e.g. commonEthereum "…/ethereum")
+	for _, f := range e.pkg.files {
+		for _, is := range f.Imports {
+			if is.Name == nil || is.Name.Name != pkgName {
+				continue
+			}
+			path := strings.Trim(is.Path.Value, "\"")
+			for _, imp := range e.pkg.types.Imports() {
+				if imp.Path() == path {
+					if o := imp.Scope().Lookup(name); o != nil {
+						return e.evalObj(o), true
+					}
+				}
+			}
+		}
+	}
 	return T{}, false
 }
 
@@ -668,6 +684,20 @@ func (e *specEnv) evalCall(s *SExpr) T {
 			return e.fail("typeid: unknown type %s", s.Args[0].String())
 		}
 		return mkMath(fmt.Sprint(x.d.typeID(t)))
+	case "errorsIs":
+		// errorsIs(err, target): the relation the executable errors.Is(err, target) is modelled by
+		a, b := e.eval(s.Args[0]), e.eval(s.Args[1])
+		return mkBool(app("errors_is", a.S, b.S))
+	case "implements":
+		// implements(v, I): the dynamic type of interface value v implements interface type I
+		// (the same uninterpreted predicate the executable `v.(I)` assertion uses)
+		v := e.eval(s.Args[0])
+		t, _ := e.resolveType(s.Args[1].String())
+		if t == nil {
+			return e.fail("implements: unknown type %s", s.Args[1].String())
+		}
+		x.d.declareFun("implements", []string{"Int", "Int"}, "Bool")
+		return mkBool(and(not(eq(v.S, "0")), app("implements", app("dyntype", v.S), fmt.Sprint(x.d.typeID(t)))))
 	case "allocated":
 		p := e.eval(s.Args[0])
 		return mkBool(fmt.Sprintf("(select %s %s)", e.cur().alloc, p.S))
